@@ -49,6 +49,7 @@ def _machine(scen, eng, log):
     def mk(name, fail=False):
         if eng == "async":
             async def svc(i, c, e):
+                log.setdefault("t_start", []).append(time.monotonic())
                 starts.append((name, e.payload.get("input")))
                 k = len([s for s in starts if s[0] == name])
                 await asyncio.sleep(L)
@@ -93,7 +94,30 @@ SCRIPT = {"compound-child": ["GO"], "compound-history": ["GO"], "ok": ["GO"], "f
           "stop-early": ["GO", "STOP"], "stale": ["GO", "WAIT", "X", "Y", "WAIT", "STALE"]}
 
 
+EARLY = {"exit-early": "X", "reenter-early": "X", "stop-early": "STOP"}
+
+
+def _slipped(case, res):
+    """The "early" scenarios need the interrupting operation to arrive while the service (latency L) is still running.
+    On a loaded machine the harness can be late: such a run is not the scenario it names."""
+    scen = case["scenario"]
+    if case["engine"] != "async" or scen not in EARLY:
+        return False
+    ts, ops = res["log"].get("t_start", []), res["log"].get("t_op", [])
+    t_int = [t for o, t in ops if o == EARLY[scen]]
+    return bool(ts and t_int and t_int[0] - ts[0] > 0.7 * L)
+
+
 def run_case(case):
+    res = None
+    for _ in range(4):          # a run whose schedule slipped is repeated; one that stays late concludes nothing
+        res = _run_once(case)
+        if not _slipped(case, res):
+            break
+    return res
+
+
+def _run_once(case):
     from xstate_statemachine import Interpreter, SyncInterpreter
     from xstate_statemachine.events import DoneEvent
     scen, eng = case["scenario"], case["engine"]
@@ -123,10 +147,12 @@ def run_case(case):
                 await asyncio.sleep(3 * L)
             elif op == "STOP":
                 await asyncio.sleep(L / 3)
+                log.setdefault("t_op", []).append((op, time.monotonic()))
                 await it.stop()
             elif op == "STALE":
                 await it.send(stale)
             else:
+                log.setdefault("t_op", []).append((op, time.monotonic()))
                 await it.send(op)
                 await asyncio.sleep(L / 3)
         await asyncio.sleep(4 * L)
@@ -145,6 +171,8 @@ def run_case(case):
 
 def post_check(case, res):
     out = []
+    if _slipped(case, res):
+        return out
     scen, e = case["scenario"], case["engine"]
     log = res["log"]
     starts, done, err = log.get("starts", []), log.get("done", []), log.get("err", [])
